@@ -29,10 +29,10 @@ ScopeOf(op) ==
   THEN CASE op = "t"         -> Scope(1, 2, 2, 5, 0, 0, 0)
          [] op = "concat"    -> Scope(2, 1, 3, 4, 0, 0, 0)
          [] op = "concat3"   -> Scope(1, 1, 3, 4, 0, 0, 0)
-         [] op = "partition" -> Scope(2, 2, 2, 3, 0, 2, 0)
-         [] op = "split"     -> Scope(2, 2, 3, 2, 0, 0, 0)
-         [] op = "trim"      -> Scope(2, 2, 3, 1, 4, 0, 0)
-         [] op = "style"     -> Scope(2, 2, 3, 4, 0, 0, 0)
+         [] op = "partition" -> Scope(2, 1, 2, 6, 0, 2, 0)
+         [] op = "split"     -> Scope(2, 2, 2, 2, 0, 0, 0)
+         [] op = "trim"      -> Scope(2, 2, 2, 1, 4, 0, 0)
+         [] op = "style"     -> Scope(3, 1, 3, 4, 0, 0, 0)
          [] op = "styleseg"  -> Scope(1, 2, 4, 4, 0, 0, 0)
          [] op = "tb"        -> Scope(2, 1, 2, 4, 0, 0, 2)
   ELSE CASE op = "t"         -> Scope(1, 3, 2, 5, 0, 0, 0)
